@@ -454,8 +454,21 @@ func (c *Client) Tx(ctx context.Context, hash []byte, prove bool) (*ctypes.Resul
 		return nil, err
 	}
 
+	// The proof must be about the transaction that is being returned: same
+	// bytes, same hash as requested, same position in the block.
+	if !bytes.Equal(res.Tx, res.Proof.Data) || !bytes.Equal(res.Hash, res.Tx.Hash()) || !bytes.Equal(res.Hash, hash) {
+		return nil, errors.New("transaction does not match its inclusion proof")
+	}
+	if res.Proof.Proof.Index != int64(res.Index) {
+		return nil, fmt.Errorf("transaction index %d does not match the index of its inclusion proof %d",
+			res.Index, res.Proof.Proof.Index)
+	}
+
 	// Validate the proof.
-	return res, res.Proof.Validate(l.DataHash)
+	if err := res.Proof.Validate(l.DataHash); err != nil {
+		return nil, err
+	}
+	return res, nil
 }
 
 func (c *Client) TxSearch(
